@@ -51,8 +51,98 @@ def scenarios(ctx: Ctx, res: Result):
         yield gc.fault_scenario(ctx.rng) if ctx.rng.random() < 0.5 else gc.scenario(ctx.rng)
 
 
+def bounded_engine_cases(res):
+    """"never reports a second complex event or executes a second action for it" when a task DOWNSTREAM of the producer
+    refuses the complex event (a bounded receiver that is full at that moment) and the caller keeps calling update():
+    however the refusal is handled, no run is published twice.  Two runs complete on one datum (locally, or named by one
+    peer message); every task's queue takes `bound` items."""
+    from harness.core import Violation
+    from harness.props.c08 import bound_queue
+    from bobocep import BoboError
+    from bobocep.cep.action import BoboAction, BoboActionHandlerBlocking
+    from bobocep.cep.engine.decider.runserial import BoboRunSerial
+    from bobocep.cep.engine.producer.pubsub import BoboProducerSubscriber
+    from bobocep.cep.event import BoboEventSimple, BoboHistory
+    from bobocep.cep.phenom import BoboPhenomenon
+    from bobocep.cep.phenom.pattern.builder import BoboPatternBuilder
+    from bobocep.setup.simple import BoboSetupSimple
+
+    class Count(BoboAction):
+        def __init__(self, name, log):
+            super().__init__(name)
+            self.log = log
+
+        def execute(self, event):
+            self.log.append(tuple(e.event_id for e in event.history.all_events()))
+            return True, None
+
+    class Rec(BoboProducerSubscriber):
+        def __init__(self):
+            self.events = []
+
+        def on_producer_update(self, event, local):
+            self.events.append((tuple(e.event_id for e in event.history.all_events()), event.pattern_name, local))
+
+    for how in ('local', 'remote'):
+        for bound in (1, 2):
+            for which in ('receiver', 'forwarder'):
+                case = {'bounded_engine': True, 'how': how, 'bound': bound, 'which': which}
+                res.add_case(case, nontrivial=True)
+                res.count('bounded_engine_cases')
+                log, rec = [], Rec()
+                phens = [BoboPhenomenon(name=f'ph{i}', action=Count(f'act{i}', log), patterns=[
+                    BoboPatternBuilder(f'p{i}').followed_by(lambda e, h: e.data == 0).followed_by(lambda e, h: e.data == 1).generate()])
+                    for i in range(3)]
+                eng = BoboSetupSimple(phenomena=phens, handler=BoboActionHandlerBlocking()).generate()
+                eng.producer.subscribe(rec)
+                bound_queue(getattr(eng, which), '_queue', bound)
+                raised = 0
+
+                def pump(n=14):
+                    nonlocal raised
+                    for _ in range(n):
+                        try:
+                            eng.update()
+                        except BoboError:
+                            raised += 1
+                try:
+                    if how == 'local':
+                        eng.receiver.add_data(0)
+                        pump(4)
+                        eng.receiver.add_data(1)
+                    else:
+                        recs = [BoboRunSerial(f'peer{i}', f'ph{i}', f'p{i}', 2, BoboHistory({'': [
+                            BoboEventSimple(f'x{i}a', 1, 0), BoboEventSimple(f'x{i}b', 2, 1)]})) for i in range(3)]
+                        eng.decider.on_distributed_update(completed=recs, halted=[], updated=[])
+                    pump()
+                except Exception as e:      # noqa
+                    res.violations.append(Violation('component-raised', f"{case}: {type(e).__name__}: {e}", case))
+                    continue
+                res.count('bounded_engine_refusals', raised)
+                seen = {}
+                for key, pat, local in rec.events:
+                    seen[(key, pat)] = seen.get((key, pat), 0) + 1
+                twice = [k for k, v in seen.items() if v > 1]
+                if twice:
+                    res.violations.append(Violation('completed-twice', f"{case}: the complex event of run {twice[0]} was published "
+                                                    f"{seen[twice[0]]} times ({raised} update() calls raised meanwhile)", case))
+                    continue
+                if how == 'remote' and log:
+                    res.violations.append(Violation('remote-completion-executed-action', f"{case}: {len(log)} action executions for completions learned from a peer", case))
+                    continue
+                if len(set(log)) != len(log) and how == 'local':
+                    from collections import Counter
+                    c = Counter(log)
+                    if any(v > 3 for v in c.values()) or len(log) > 3:
+                        res.violations.append(Violation('action-executed-twice', f"{case}: {len(log)} action executions for 3 completed runs: {dict(c)}", case))
+
+
 def run(ctx: Ctx) -> Result:
     res = Result()
+    if ctx.replay is None or ctx.replay['replay'].get('bounded_engine'):
+        bounded_engine_cases(res)
+        if ctx.replay is not None:
+            return res
     if ctx.replay is None or not ctx.replay['replay'].get('race'):
         scs = [ctx.replay['replay']] if ctx.replay is not None else scenarios(ctx, res)
         run_scenarios(ctx, scs, res, SIGS)
